@@ -20,6 +20,10 @@ var wildPool = []string{"t/#", "#", "+/a", "x/+/z", "n/+", "dev/+/temp"}
 func (g *Gen) Sched(focus ...string) simrt.SchedCfg {
 	var c simrt.SchedCfg
 	switch x := g.Float(); {
+	case x < 0.08:
+		// a node that is slow all the time: dense yields and many short stalls, so that replies arrive
+		// while the code that asked for them is still between two statements
+		return simrt.SchedCfg{Density: 0.3 + g.Float()*0.7, Overlap: true, StallProb: 0.25, MaxStall: time.Duration(g.Range(300, 5000)) * time.Microsecond, MaxStalls: 60}
 	case x < 0.3:
 		return simrt.SchedCfg{}
 	case x < 0.6:
